@@ -24,28 +24,36 @@ def rule_early_check(ctx):
     fn = wsp.methods["onMessageFrameBegin"]
     ctx.analysed(fn)
     g, mf, res = an.get(fn)
+    # cell-wise over (message limit, frame limit, octets already counted, declared frame length, already failed): the 1009 sink fires
+    # iff this side has not failed yet and (message limit > 0 and total > limit) or (frame limit > 0 and length > limit)
+    from ..core.tiny import Tiny, Sym
+    import itertools
+    body = [x for x in fn.node.body if not (isinstance(x, ast.Expr) and isinstance(x.value, ast.Constant))]
     plen = fn.params()[1]
-    upd = [n for n in g.stmt_nodes() if n.kind == "stmt" and isinstance(n.ast, ast.AugAssign) and is_self_attr(n.ast.target, "message_data_total_length")]
-    ok = len(upd) == 1 and isinstance(upd[0].ast.op, ast.Add) and norm.text(upd[0].ast.value) == plen and not norm.mentions(())
-    ctx.ob("running message length += declared frame length", bool(ok), "message_data_total_length no longer accumulates the declared frame length", fn.loc())
-    sinks = [(n, c) for n in g.stmt_nodes() for c in node_calls(n) if self_call(c, "_max_message_size_exceeded")]
-    ctx.require(len(sinks) == 2, "onMessageFrameBegin: expected message- and frame-limit sinks")
-    seen = set()
-    for n, c in sinks:
-        facts = mf.at(n)
-        which = None
-        for lim, val in (("self.maxMessagePayloadSize", "self.message_data_total_length"), ("self.maxFramePayloadSize", plen)):
-            if ("lt", ("c", 0), ("e", lim), True) in facts and ("lt", ("e", lim), ("e", val), True) in facts:
-                which = lim
-        ctx.ob(f"limit sink {len(seen) + 1}: fires iff limit > 0 and size > limit (strict)", which is not None,
-               "limit comparison is not `0 < limit < size` (size == limit must pass, limit 0 disables)", fn.loc(c))
-        if which:
-            seen.add(which)
-        ctx.ob(f"limit sink {len(seen)}: only while this side has not already failed", ("truth", "self.failedByMe", None, False) in facts,
-               "limit check not under `not failedByMe`", fn.loc(c))
-        if upd:
-            ctx.ob(f"limit sink {len(seen)}: compares the updated running total", g.always_preceded_by(n, lambda x: x is upd[0]), "limit compared before the total is updated", fn.loc(c))
-    ctx.ob("both message and frame limits are checked", seen == {"self.maxMessagePayloadSize", "self.maxFramePayloadSize"}, f"checked: {sorted(seen)}", fn.loc())
+    probs = []
+    cells = 0
+    try:
+        S_OPEN_, S_CLOSING_ = ctx.program.class_const(wsp, "STATE_OPEN"), ctx.program.class_const(wsp, "STATE_CLOSING")
+        for M, F, T0, L, failed, state in itertools.product((0, 8, 16), (0, 8, 16), (0, 10), (0, 6, 7, 8, 9, 15, 16, 17, 100), (False, True), (S_OPEN_, S_CLOSING_)):
+            cells += 1
+            fired = []
+            t = Tiny({plen: L, "self.maxMessagePayloadSize": M, "self.maxFramePayloadSize": F, "self.message_data_total_length": T0, "self.failedByMe": failed, "self": Sym("p"),
+                      "self.state": state, "WebSocketProtocol.STATE_OPEN": S_OPEN_, "WebSocketProtocol.STATE_CLOSING": S_CLOSING_,
+                      "WebSocketProtocol.STATE_CLOSED": ctx.program.class_const(wsp, "STATE_CLOSED")},
+                     default_call=lambda f_, a_, k_=None: fired.append((f_, list(a_))) or Sym(f"<{f_}>"))
+            t.run(body)
+            total = t.env.get("self.message_data_total_length")
+            want = (not failed) and ((M > 0 and T0 + L > M) or (F > 0 and L > F))
+            sink = [a for f_, a in fired if f_ == "self._max_message_size_exceeded"]
+            cell = f"maxMessage={M} maxFrame={F} counted={T0} frame length={L} failedByMe={failed} state={'OPEN' if state == S_OPEN_ else 'CLOSING'}"
+            if total != T0 + L:
+                probs.append(f"{cell}: running total becomes {total}, expected {T0 + L}")
+            if bool(sink) != want:
+                probs.append(f"{cell}: connection {'failed' if sink else 'NOT failed'} with 1009 at the frame header")
+        ctx.ob(f"at each data-frame header: 1009 iff not yet failed and (message limit > 0 and running total > limit) or (frame limit > 0 and frame length > limit) "
+               f"[{cells} cells]", not probs, "; ".join(sorted(set(probs))[:2]), fn.loc())
+    except AnalysisError as e:
+        raise AnalysisError(f"[C16.1-early-limit-check] onMessageFrameBegin outside the modelled subset: {e}")
     # the sink fails with 1009
     sk = wsp.methods["_max_message_size_exceeded"]
     ctx.analysed(sk)
@@ -128,33 +136,58 @@ def rule_send_refusal(ctx):
     fn = ctx.program.func(f"{WSP}.sendMessage")
     ctx.analysed(fn)
     g, mf, res = an.get(fn)
-    raises = [n for n in g.stmt_nodes() if n.kind == "stmt" and isinstance(n.ast, ast.Raise) and n.ast.exc is not None and
-              isinstance(n.ast.exc, ast.Call) and norm.text(n.ast.exc.func) == "PayloadExceededError"]
-    ctx.require(len(raises) == 1, "sendMessage: raise PayloadExceededError not found")
-    r = raises[0]
-    facts = mf.at(r)
-    ok = ("lt", ("c", 0), ("e", "self.maxMessagePayloadSize"), True) in facts and ("lt", ("e", "self.maxMessagePayloadSize"), ("e", "payload_len"), True) in facts
-    ctx.ob("send refused iff limit > 0 and wire length > limit (strict)", ok, "send-side limit comparison changed", fn.loc(r.ast))
-    tests = [n for n in g.stmt_nodes() if n.kind == "test" and any(m is r or r.id in g.reachable(m, avoid=lambda x: x.kind == "test") for m, lab in n.succ if lab and lab[0] == "T")
-             and "payload_len" in norm.mentions_of(n.ast)]
-    ctx.require(len(tests) == 1, "sendMessage: limit test not found")
-    t = tests[0]
-    frames = [(n, c) for n in g.stmt_nodes() for c in node_calls(n) if self_call(c, ("sendFrame", "sendData"))]
-    ctx.require(len(frames) >= 3, "sendMessage: sendFrame sites not found")
-    for n, c in frames:
-        ctx.ob(f"limit test dominates {stmt_key(c)[:40]}", g.always_preceded_by(n, lambda x: x is t) and
-               not any(n.id in g.reachable(m) for m, lab in t.succ if lab and lab[0] == "T"),
-               "a frame can be written before / despite the size check", fn.loc(c))
-    # payload_len is the length of what goes on the wire (after compression)
-    pl = [n for n in g.stmt_nodes() if n.kind == "stmt" and isinstance(n.ast, ast.Assign) and norm.text(n.ast.targets[0]) == "payload_len"]
-    ok = len(pl) == 2 and all(norm.text(n.ast.value) == "len(payload)" for n in pl)
-    comp = [n for n in pl if norm.is_truthy_known(mf.at(n), "doNotCompress") is False]
-    if comp:
-        joined = [n for n in g.stmt_nodes() if n.kind == "stmt" and isinstance(n.ast, ast.Assign) and norm.text(n.ast.targets[0]) == "payload"
-                  and "join" in norm.text(n.ast.value)]
-        ok = ok and len(joined) == 1 and g.always_preceded_by(comp[0], lambda x: x is joined[0])
-    ctx.ob("compared length is len(payload) after compression", bool(ok), "payload_len is not the wire length", fn.loc())
-    ctx.ob("limit test precedes nothing that writes", g.always_preceded_by(t, lambda x: x.kind == "test" and "self.state" in norm.mentions_of(x.ast)), "state test no longer first", fn.loc())
+    # cell-wise over (limit, application length, wire length after optional compression, fragmentSize, autoFragmentSize): the message is
+    # refused with PayloadExceededError, nothing written, iff limit > 0 and its WIRE payload exceeds the limit; otherwise the frames written
+    # carry exactly the wire payload
+    from ..core.tiny import Tiny, Sym, Buf
+    import itertools
+    wsp = ctx.program.cls(WSP)
+    S_OPEN = ctx.program.class_const(wsp, "STATE_OPEN")
+    body = [x for x in fn.node.body if not (isinstance(x, ast.Expr) and isinstance(x.value, ast.Constant))]
+    probs = []
+    cells = 0
+    try:
+        shapes = [(n_, None) for n_ in (0, 63, 64, 65, 200)] + [(63, 69), (64, 70), (2000, 18), (65, 64)]
+        for M, (n_, wire), frag, auto in itertools.product((0, 64), shapes, (None, 16), (0, 16)):
+            cells += 1
+            written = []
+
+            def default(f_, a_, k_=None):
+                if f_ in ("self.sendFrame", "self.sendData"):
+                    written.append(dict(k_ or {}, args=list(a_)))
+                    return None
+                if f_ == "type":
+                    return "bytes"
+                return Sym(f"<{f_}>")
+            pmc = None
+            if wire is not None:
+                pmc = Sym("pmce", methods={"start_compress_message": lambda: None, "compress_message_data": lambda d, wire=wire: Buf(0, wire - 2), "end_compress_message": lambda: Buf(0, 2)})
+            prm = fn.params()
+            env = {prm[1]: Buf(0, n_), "isBinary": True, "fragmentSize": frag, "sync": False, "doNotCompress": False, "bytes": "bytes",
+                   "self.state": S_OPEN, "WebSocketProtocol.STATE_OPEN": S_OPEN, "self.trackedTimings": None, "self._perMessageCompress": pmc,
+                   "self.maxMessagePayloadSize": M, "self.autoFragmentSize": auto, "self.wasMaxMessagePayloadSizeExceeded": False, "self": Sym("p"),
+                   "self.trafficStats.outgoingWebSocketMessages": 0, "self.trafficStats.outgoingOctetsAppLevel": 0, "self.trafficStats.outgoingOctetsWebSocketLevel": 0}
+            t = Tiny(env, default_call=default)
+            r = t.run(body)
+            w = wire if wire is not None else n_
+            want_refuse = M > 0 and w > M
+            cell = f"limit={M} app length={n_} wire length={w} fragmentSize={frag} autoFragmentSize={auto}"
+            refused = r[0] == "raise" and "PayloadExceededError" in str(r[1])
+            if r[0] == "raise" and not refused:
+                probs.append(f"{cell}: raises {r[1]}")
+                continue
+            if refused != want_refuse:
+                probs.append(f"{cell}: {'refused' if refused else 'NOT refused'}, expected {'refusal' if want_refuse else 'sending'}")
+            if refused and written:
+                probs.append(f"{cell}: refused, but {len(written)} frame(s) were already written")
+            if not refused:
+                tot = sum(len(x["payload"]) if isinstance(x.get("payload"), Buf) else 0 for x in written)
+                if tot != w or not written:
+                    probs.append(f"{cell}: frames written carry {tot} payload octets, expected {w}")
+        ctx.ob(f"sendMessage: refused locally (PayloadExceededError, nothing written) iff limit > 0 and the wire payload exceeds it [{cells} cells]", not probs,
+               "; ".join(sorted(set(probs))[:2]), fn.loc())
+    except AnalysisError as e:
+        raise AnalysisError(f"[C16.3-send-refusal] sendMessage outside the modelled subset: {e}")
 
 
 def rule_bounded_decompress(ctx):
